@@ -488,6 +488,46 @@ def scen_digit_runs(env):
     env.check('digit-runs', not misread, info=lambda: (bad, iv.as_list(), misread))
 
 
+def scen_iso_basic(env):
+    """ISO 8601 basic / extended / 'T'-prefixed notations of the same moments (time, date-time, --MMDD dates) denote the
+    same interval as the traditional string and the integer sequences (real datetime parser; numerals from a grid)"""
+    h1, h2 = env.pick([0, 7, 10, 23], 'h1'), env.pick([0, 9, 11, 23], 'h2')
+    m1, m2 = env.pick([0, 5, 59], 'm1'), env.pick([0, 30], 'm2')
+    sec = env.pick([None, 0, 7], 'sec')
+    t = lambda h, m: [h, m] + ([sec] if sec is not None else [])
+    ext = lambda h, m: f'{h:02d}:{m:02d}' + (f':{sec:02d}' if sec is not None else '')
+    bas = lambda h, m: f'{h:02d}{m:02d}' + (f'{sec:02d}' if sec is not None else '')
+    want = ti.TimeInterval([[t(h1, m1), t(h2, m2)]]).as_list()
+    forms = [f'{ext(h1, m1)}-{ext(h2, m2)}', f'{bas(h1, m1)}/{bas(h2, m2)}', f'T{ext(h1, m1)} - T{ext(h2, m2)}',
+             f'{bas(h1, m1)} - {ext(h2, m2)}']
+    for f in forms:
+        try:
+            got = ti.TimeInterval(f).as_list()
+        except Exception as err:
+            got = err
+        env.check('iso-notations', got == want, info=lambda: (f, got, want))
+    mo, d = env.pick([1, 2, 12], 'month'), env.pick([1, 28, 29], 'day')
+    y = 2024
+    wantdt = ti.DateTimeInterval([[[y, mo, d] + t(h1, m1), [y + 1, mo, min(d, 28)] + t(h2, m2)]]).as_list()
+    formsdt = [f'{y}-{mo:02d}-{d:02d}T{ext(h1, m1)}/{y + 1}-{mo:02d}-{min(d, 28):02d}T{ext(h2, m2)}',
+               f'{y}{mo:02d}{d:02d}T{bas(h1, m1)}/{y + 1}{mo:02d}{min(d, 28):02d}T{bas(h2, m2)}',
+               f'{y}-{mo:02d}-{d:02d} {ext(h1, m1)} - {y + 1}-{mo:02d}-{min(d, 28):02d} {ext(h2, m2)}',
+               f'{d} {ti.MONTH_NAMES[mo][:3]} {y} {ext(h1, m1)} / {ti.MONTH_NAMES[mo]} {min(d, 28)}. {y + 1} {ext(h2, m2)}']
+    for f in formsdt:
+        try:
+            got = ti.DateTimeInterval(f).as_list()
+        except Exception as err:
+            got = err
+        env.check('iso-notations', got == wantdt, info=lambda: (f, got, wantdt))
+    wantd = ti.DateInterval([[[mo, d], [12, 31]]]).as_list()
+    for f in (f'--{mo:02d}{d:02d}/--1231', f'--{mo:02d}-{d:02d} - --12-31', f'{d} {ti.MONTH_NAMES[mo][:4]} - dec 31', f'{ti.MONTH_NAMES[mo]} {d}. / 31.DEC'):
+        try:
+            got = ti.DateInterval(f).as_list()
+        except Exception as err:
+            got = err
+        env.check('iso-notations', got == wantd, info=lambda: (f, got, wantd))
+
+
 def scen_roundtrip_grid(env, kind):
     """'feeding that form or the string rendering back yields the same interval': one or two ranges whose endpoints the
     solver draws from a grid (equal endpoints included: the whole day / a single date / an empty date-time range),
@@ -630,6 +670,7 @@ def shards(tier):
            {'name': 'malformed', 'scenario': 'scen_malformed'},
            {'name': 'roundtrip', 'scenario': 'scen_roundtrip'},
            {'name': 'extra digit next to a numeral', 'scenario': 'scen_digit_runs'},
+           {'name': 'ISO basic / extended / traditional notations', 'scenario': 'scen_iso_basic'},
            {'name': 'roundtrip grid time', 'scenario': 'scen_roundtrip_grid', 'params': {'kind': 'time'}},
            {'name': 'roundtrip grid date', 'scenario': 'scen_roundtrip_grid', 'params': {'kind': 'date'}},
            {'name': 'roundtrip grid datetime', 'scenario': 'scen_roundtrip_grid', 'params': {'kind': 'datetime'}},
